@@ -87,6 +87,7 @@ struct BlkRef {
     int height;
     bool undo;
     bool active;
+    unsigned pos;
 };
 struct FileInfoCopy {
     uint64_t size{0}, undo{0};
@@ -123,6 +124,11 @@ struct Hist {
     // stats
     int blocks_mined{0}, reorgs{0}, max_reorg{0};
     std::set<int> protected_files; // files a chainstate is still writing to (never inflated)
+    // height ranges [lo, hi] that were written to disk out of height order and then closed by a file roll-over: the
+    // file's last-written block is lower than its highest one
+    std::vector<std::pair<int, int>> ooo;
+    std::set<size_t> ooo_aimed;
+    int aimed{0};
 };
 
 // plain readdir: this runs twice per submitted block
@@ -151,7 +157,7 @@ Snap TakeSnap(Hist& h)
     s.refs.reserve(h.cm.m_blockman.m_block_index.size());
     for (const auto& [hash, bi] : h.cm.m_blockman.m_block_index) {
         if (bi.nStatus & BLOCK_HAVE_DATA) {
-            s.refs.push_back(BlkRef{&bi, bi.nFile, bi.nHeight, bool(bi.nStatus & BLOCK_HAVE_UNDO), ac.Contains(bi)});
+            s.refs.push_back(BlkRef{&bi, bi.nFile, bi.nHeight, bool(bi.nStatus & BLOCK_HAVE_UNDO), ac.Contains(bi), bi.nDataPos});
         }
     }
     for (int f = 0;; ++f) {
@@ -283,6 +289,8 @@ void Observed(Hist& h, CallType type, int manual_height, F&& call)
             }
             std::vector<std::string> bl;
             int mn = INT32_MAX, mx = -1;
+            const BlkRef* lastw = &refs.front();
+            for (const BlkRef& r : refs) if (r.pos > lastw->pos) lastw = &r;
             for (const BlkRef& r : refs) {
                 bl.push_back("[" + std::to_string(r.height) + "," + (r.active ? "1" : "0") + "]");
                 mn = std::min(mn, r.height);
@@ -295,10 +303,12 @@ void Observed(Hist& h, CallType type, int manual_height, F&& call)
                 }
             }
             const FileInfoCopy fi = f >= 0 && size_t(f) < pre.info.size() ? pre.info[f] : FileInfoCopy{};
-            jdel.push_back(vh::J().i("f", f).i("minh", mn).i("maxh", mx).u("fi_first", fi.first).u("fi_last", fi.last).u("size", fi.size).u("undo", fi.undo)
+            jdel.push_back(vh::J().i("f", f).i("minh", mn).i("maxh", mx).u("fi_first", fi.first).u("fi_last", fi.last).u("size", fi.size).u("undo", fi.undo).i("lw", lastw->height)
                                .raw("blocks", vh::JArr(bl)).done());
         } else {
             int mn = INT32_MAX, mx = -1;
+            const BlkRef* lastw = &refs.front();
+            for (const BlkRef& r : refs) if (r.pos > lastw->pos) lastw = &r;
             for (const BlkRef& r : refs) {
                 mn = std::min(mn, r.height);
                 mx = std::max(mx, r.height);
@@ -329,7 +339,7 @@ void Observed(Hist& h, CallType type, int manual_height, F&& call)
             if (type != CallType::NATURAL) {
                 const FileInfoCopy fi = f >= 0 && size_t(f) < pre.info.size() ? pre.info[f] : FileInfoCopy{};
                 jrem.push_back("[" + std::to_string(f) + "," + std::to_string(mn) + "," + std::to_string(mx) + "," + std::to_string(fi.first) + "," + std::to_string(fi.last) + "," +
-                               std::to_string(fi.size) + "," + std::to_string(fi.undo) + "]");
+                               std::to_string(fi.size) + "," + std::to_string(fi.undo) + "," + std::to_string(lastw->height) + "]");
             }
         }
     }
@@ -339,7 +349,7 @@ void Observed(Hist& h, CallType type, int manual_height, F&& call)
     rec.u("case", h.c).i("ev", h.nev++).str("type", tn).i("arg", manual_height).i("tip_pre", pre.tip).i("tip_post", tip_post).raw("locks", LocksJson(h))
         .u("usage_pre", pre.usage).u("usage_post", usage_post).b("automatic", h.automatic).u("target", h.target).i("prune_after", 100)
         .b("snapshot", h.snapshot).i("base", h.base_height).i("bg_tip_pre", bg_tip_pre).i("bg_tip_post", bg_tip_post).b("validated_pre", validated_pre).b("validated_post", validated_post)
-        .raw("deleted", vh::JArr(jdel)).raw("remaining", vh::JArr(jrem)).u("read_back", checked_read).u("flags_kept", flags_kept).u("flags_lost", flags_lost).u("unreadable", unreadable);
+        .i("maxfile", int(pre.info.size()) - 1).raw("deleted", vh::JArr(jdel)).raw("remaining", vh::JArr(jrem)).u("read_back", checked_read).u("flags_kept", flags_kept).u("flags_lost", flags_lost).u("unreadable", unreadable);
     vh::log().rec(rec);
     vh::log().obs(std::string("events_") + tn);
     if (!deleted.empty()) vh::log().obs(std::string("prunes_") + tn);
@@ -369,6 +379,127 @@ void Mine(Hist& h, int n)
         const CBlockIndex* tip = Tip(h);
         Submit(h, BuildBlock(h, tip, RandomBlockSize(h.rng), true), true);
     }
+}
+
+
+void ManualPruneAt(Hist& h, int height);
+void AutoPrune(Hist& h);
+void NoteWriteFiles(Hist& h);
+
+// When tip-288 falls strictly inside an out-of-order range, a prune right now has its boundary inside that file.
+void MaybeAimedPrune(Hist& h)
+{
+    const int tip = Tip(h)->nHeight;
+    const int edge = tip - 288;
+    for (size_t wi = 0; wi < h.ooo.size(); ++wi) {
+        const auto [lo, hi] = h.ooo[wi];
+        if (lo <= edge && edge < hi && !h.ooo_aimed.count(wi) && h.rng.chance(1, 2)) {
+            h.ooo_aimed.insert(wi); // one aimed prune per window
+            ++h.aimed;
+            vh::log().obs("aimed_prunes_at_window_edge");
+            if (h.automatic && h.rng.coin()) {
+                // make sure automatic pruning wants to get as far as this file
+                {
+                    LOCK(::cs_main);
+                    const CBlockIndex* pi = h.cm.ActiveChain()[lo];
+                    if (pi && (pi->nStatus & BLOCK_HAVE_DATA) && !h.protected_files.count(pi->nFile)) {
+                        CBlockFileInfo* fi = h.cm.m_blockman.GetBlockFileInfo(pi->nFile);
+                        if (fi->nSize > 0 && fi->nSize < 100 * MiB) fi->nSize += 900 * MiB;
+                    }
+                }
+                AutoPrune(h);
+            } else {
+                ManualPruneAt(h, h.rng.coin() ? tip : edge + int(h.rng.below(hi - edge + 3)));
+            }
+            return;
+        }
+    }
+}
+
+// Headers first, then the block data in reverse or shuffled order (2..8 blocks, sometimes 12..18 so that a prune lock's
+// buffer fits inside), optionally followed by a block that forces a new file: the file then ends with a block that is
+// lower than its highest one.
+void MineOutOfOrder(Hist& h, int n, bool roll_after)
+{
+    const CBlockIndex* parent = Tip(h);
+    const int lo = parent->nHeight + 1;
+    std::vector<CBlock> blocks;
+    for (int i = 0; i < n; ++i) {
+        CBlock b = BuildBlock(h, parent, h.rng.chance(1, 4) ? 600 + h.rng.below(2500) : 0, true);
+        BlockValidationState st;
+        const CBlockHeader hd = static_cast<const CBlockHeader&>(b);
+        if (!h.cm.ProcessNewBlockHeaders(std::span<const CBlockHeader>{&hd, 1}, true, st)) throw std::runtime_error("generated header rejected: " + st.ToString());
+        parent = WITH_LOCK(::cs_main, return h.cm.m_blockman.LookupBlockIndex(b.GetHash()));
+        if (!parent) throw std::runtime_error("header not in the index");
+        blocks.push_back(std::move(b));
+    }
+    std::vector<int> order(n);
+    for (int i = 0; i < n; ++i) order[i] = n - 1 - i; // reverse
+    if (h.rng.chance(1, 3)) {
+        h.rng.shuffle(order);
+        if (order.back() == n - 1) std::swap(order.front(), order.back()); // the highest block is never written last
+    }
+    for (int i : order) Submit(h, blocks[i], false);
+    if (Tip(h) != parent) throw std::runtime_error("out-of-order delivered blocks did not become the active chain");
+    vh::log().obs("ooo_windows");
+    vh::log().obs("ooo_blocks", n);
+    if (roll_after) {
+        Submit(h, BuildBlock(h, Tip(h), 66000 + h.rng.below(30000), true), true);
+        h.ooo.emplace_back(lo, lo + n - 1);
+        vh::log().obs("ooo_windows_closed_by_rollover");
+    }
+}
+
+// A stale block some heights below the tip arrives late (it is written behind higher blocks and does not reorganise),
+// then a block that forces a new file.
+void StaleThenRoll(Hist& h)
+{
+    const CBlockIndex* tip = Tip(h);
+    const int d = 1 + h.rng.below(12);
+    const int floor_h = h.snapshot ? h.base_height : 0;
+    if (tip->nHeight - d <= floor_h) return;
+    const CBlockIndex* parent = tip->GetAncestor(tip->nHeight - d);
+    Submit(h, BuildBlock(h, parent, 0, true), false);
+    if (Tip(h) != tip) throw std::runtime_error("stale block changed the tip");
+    Submit(h, BuildBlock(h, tip, 66000 + h.rng.below(30000), true), true);
+    h.ooo.emplace_back(tip->nHeight - d + 1, tip->nHeight);
+    vh::log().obs("late_stale_blocks");
+}
+
+// growth with out-of-order episodes mixed in
+void Grow(Hist& h, int n)
+{
+    const int target = Tip(h)->nHeight + n;
+    while (Tip(h)->nHeight < target) {
+        switch (h.rng.weighted({78, 14, 4, 4})) {
+        case 0: Mine(h, 1 + h.rng.below(6)); break;
+        case 1: MineOutOfOrder(h, 2 + h.rng.below(7), h.rng.chance(3, 4)); break;
+        case 2: MineOutOfOrder(h, 12 + h.rng.below(7), true); break;
+        default: StaleThenRoll(h); break;
+        }
+        NoteWriteFiles(h);
+        MaybeAimedPrune(h);
+    }
+}
+
+// a prune lock placed on top of an out-of-order range (an index that has synced exactly that far), then a manual prune
+void LockOnWindowThenPrune(Hist& h)
+{
+    const int tip = Tip(h)->nHeight;
+    std::vector<std::pair<int, int>> cand;
+    for (const auto& w : h.ooo) if (w.second - w.first >= 11 && w.second <= tip - 288) cand.push_back(w);
+    if (cand.empty()) return;
+    const auto w = cand[h.rng.below(cand.size())];
+    const int v = w.second - int(h.rng.below(std::max(1, w.second - w.first - 10)));
+    {
+        LOCK(::cs_main);
+        // the other "indexes" are further ahead, this one is the limiting lock
+        for (auto& [k, lv] : h.locks) if (lv < v) { lv = v; h.cm.m_blockman.UpdatePruneLock(k, node::PruneLockInfo{.height_first = lv}); }
+        h.locks["idxW"] = v;
+        h.cm.m_blockman.UpdatePruneLock("idxW", node::PruneLockInfo{.height_first = v});
+    }
+    vh::log().obs("lock_on_ooo_window");
+    ManualPruneAt(h, tip);
 }
 
 void Reorg(Hist& h)
@@ -474,6 +605,11 @@ void ManualPrune(Hist& h)
         break;
     }
     }
+    ManualPruneAt(h, height);
+}
+
+void ManualPruneAt(Hist& h, int height)
+{
     if (height < 1) height = 1;
     Chainstate& cs = h.cm.ActiveChainstate();
     Observed(h, CallType::MANUAL, height, [&] { PruneBlockFilesManual(cs, height); });
@@ -590,18 +726,19 @@ VH_CMD(prune)
             tip = Tip(h);
             Submit(h, BuildBlock(h, tip, rng.coin() ? 66000 + rng.below(20000) : 0, false), true);
         }
-        Mine(h, grow);
+        Grow(h, grow);
         NoteWriteFiles(h);
 
         // ---- act ------------------------------------------------------------------------------------------------
         for (int64_t a = 0; a < n_actions; ++a) {
-            switch (rng.weighted({30, 6, h.lock_regime == 0 ? 0u : 12u, automatic ? 12u : 0u, automatic ? 14u : 0u, 18, snapshot ? 8u : 0u, automatic ? 6u : 0u})) {
-            case 0: Mine(h, 1 + rng.below(12)); NoteWriteFiles(h); break;
+            switch (rng.weighted({30, 6, h.lock_regime == 0 ? 0u : 12u, automatic ? 12u : 0u, automatic ? 14u : 0u, 18, snapshot ? 8u : 0u, automatic ? 6u : 0u, 5u})) {
+            case 0: Grow(h, 1 + rng.below(12)); break;
             case 1: Reorg(h); NoteWriteFiles(h); break;
             case 2: LockAction(h); break;
             case 3: Inflate(h); break;
             case 4: AutoPrune(h); break;
             case 7: Inflate(h); AutoPrune(h); break;
+            case 8: LockOnWindowThenPrune(h); break;
             case 5: ManualPrune(h); break;
             case 6: { // background chainstate progress
                 const Chain& ch = *base;
